@@ -73,15 +73,18 @@ def tree_dir():
     return d
 
 
-def prune_old_trees(keep=2):
+def prune_old_trees(keep=4, min_age_s=3 * 3600):
+    """Drop build trees of older working-tree hashes (never one used in the last hours: parallel checks
+    against scratch copies via VERIF_REPO share this cache)."""
     ds = sorted(glob.glob(os.path.join(BUILD, "t_*")), key=os.path.getmtime, reverse=True)
     cur = tree_dir()
+    os.utime(cur, None)
     n = 0
     for d in ds:
         if d == cur:
             continue
         n += 1
-        if n >= keep:
+        if n >= keep and time.time() - os.path.getmtime(d) > min_age_s:
             shutil.rmtree(d, ignore_errors=True)
 
 
@@ -108,10 +111,20 @@ def _run(cmd, **kw):
 
 def build_lib(config):
     """Compile every libtins TU of the working tree with the config's flags -> libtins.a"""
+    import fcntl
     d = os.path.join(tree_dir(), config)
     lib = os.path.join(d, "libtins.a")
     if os.path.exists(lib):
         return lib
+    os.makedirs(d, exist_ok=True)
+    with open(os.path.join(d, ".lock"), "w") as lk:
+        fcntl.flock(lk, fcntl.LOCK_EX)      # concurrent checks on the same tree build once
+        if os.path.exists(lib):
+            return lib
+        return _build_lib_locked(config, d, lib)
+
+
+def _build_lib_locked(config, d, lib):
     t0 = time.time()
     od = os.path.join(d, "obj")
     os.makedirs(od, exist_ok=True)
